@@ -7,6 +7,7 @@
 (*   operator, transcribed from                                                                 *)
 (*     mos-core/src/codegen/mod.rs      finalize()          -> Finalize                          *)
 (*     mos-core/src/codegen/segment.rs  emit() range check  -> EmitRange                         *)
+(*     mos-core/src/codegen/mod.rs      .define segment/bank range rules -> NeverDefined, CodegenErrs *)
 (*     mos-core/src/io/binary_writer.rs Bank::merge         -> BankMerge                         *)
 (*                                      merge_segments      -> Selected, SizeBank, CheckAssign   *)
 (*                                      write_banks         -> WriteOne                          *)
@@ -138,10 +139,16 @@ Analyse(cfg) ==
       (*   default-segment rule); format prg requested with several banks (documented limitation)        *)
       may  == (IF Len(cfg.segs) = 1 /\ cfg.segs[1].origin = "user" /\ ~cfg.segs[1].bank.on /\ Len(cfg.banks) > 0 THEN {"nobank"} ELSE {})
          \cup (IF cfg.fmt = "prg" /\ Len(eb) # 1 THEN {"prgmulti"} ELSE {})
+         (*   a size beyond the address space (> 65536; a bank cannot hold that many bytes, so only padding could *)
+         (*   reach it): the code reports it as a diagnostic since ec96d7b; padding to `size` is accepted as well. *)
+         (*   (a negative size needs no rule: every image is larger than it -> "oversize" in must)                *)
+         \cup (IF \E j \in Idx(eb) : eb[j].size.on /\ eb[j].size.v > 65536 THEN {"sizerange"} ELSE {})
       (* outside the property's quantifier: empty segments (they write no address; the code lets them    *)
       (* stretch the bank range depending on merge order); prg header of a bank that holds no byte        *)
       unspec == \/ \E i \in Idx(ps) : Len(ps[i].bytes) = 0
                 \/ OutFmt(cfg) = "prg" /\ Len(img[1].data) = 0
+                (* a fill value that is not a byte cannot be "held" by any byte of a file (the code keeps its low 8 bits) *)
+                \/ \E j \in Idx(eb) : eb[j].fill.on /\ eb[j].fill.v \notin 0..255
   IN [must |-> must, may |-> may, unspec |-> unspec,
       banks |-> [j \in Idx(eb) |-> [name |-> eb[j].name, lo |-> img[j].lo, hi |-> img[j].lo + Len(pad[j]), data |-> pad[j]]],
       files |-> [f \in fns |-> hdr(f) \o cat(f)]]
@@ -167,6 +174,26 @@ Accepts(cfg, o) == Reject(Analyse(cfg), o) = ""
 
 (* segment.rs emit(): start > $ffff or end > $10000 is refused *)
 EmitRange(ps) == \E i \in Idx(ps) : Len(ps[i].bytes) > 0 /\ (ps[i].lo > 65535 \/ ps[i].hi > 65536 \/ ps[i].lo < 0)
+
+(* codegen/mod.rs `.define segment` / `.define bank` (since the range fixes): a user segment whose `start` (when it *)
+(* can be evaluated) or `pc` is outside $0000-$FFFF and a bank whose `size` is outside 0..65536 are rejected at the *)
+(* definition; all diagnostics of a pass are collected.  A definition that is rejected in EVERY pass (literal start   *)
+(* or pc, bank size) never creates the segment / the bank and its create-segment segment, so every `.segment "x"`    *)
+(* block naming it reports "unknown identifier" as well.  A start that depends on another segment cannot be          *)
+(* evaluated in the first pass: the segment is created then (at 0) and stays registered when a later pass rejects    *)
+(* the definition, so its blocks produce no second diagnostic.                                                       *)
+InAddr(v) == v >= 0 /\ v <= 65535
+BadSizeBanks(cfg) == {cfg.banks[j].name : j \in {j \in Idx(cfg.banks) : cfg.banks[j].size.on /\ (cfg.banks[j].size.v < 0 \/ cfg.banks[j].size.v > 65536)}}
+BadPc(s) == s.pc.on /\ ~InAddr(s.pc.v)
+NeverDefined(cfg) == {i \in Idx(cfg.segs) :
+   \/ cfg.segs[i].origin = "user" /\ ((cfg.segs[i].start.k = "lit" /\ ~InAddr(cfg.segs[i].start.v)) \/ BadPc(cfg.segs[i]))
+   \/ cfg.segs[i].origin = "bank" /\ cfg.segs[i].name \in BadSizeBanks(cfg)}
+(* the error kinds of the code generation stage ({} = code generation succeeds) *)
+CodegenErrs(cfg, ps) ==
+       (IF EmitRange([i \in Idx(ps) |-> IF i \in NeverDefined(cfg) THEN [ps[i] EXCEPT !.bytes = <<>>] ELSE ps[i]])   \* bodies of undefined segments never run
+           \/ \E i \in Idx(ps) : cfg.segs[i].origin = "user" /\ (~InAddr(ps[i].lo) \/ BadPc(cfg.segs[i])) THEN {"range"} ELSE {})
+  \cup (IF BadSizeBanks(cfg) # {} THEN {"sizerange"} ELSE {})
+  \cup (IF \E i \in NeverDefined(cfg) : Len(cfg.segs[i].bytes) > 0 THEN {"undefseg"} ELSE {})
 
 (* codegen/mod.rs finalize(): default bank, lone-segment rule, unassigned check *)
 Finalize(cfg, ps, D) ==
@@ -231,7 +258,7 @@ WriteAll(files, bks, defname) ==
 Failed(kinds) == [ok |-> FALSE, files |-> <<>>, errs |-> kinds, banks |-> <<>>]
 Outcome(cfg, D) ==
   LET ps == Placed(cfg) IN
-  IF EmitRange(ps) THEN Failed({"range"})
+  IF CodegenErrs(cfg, ps) # {} THEN Failed(CodegenErrs(cfg, ps))
   ELSE LET fin == Finalize(cfg, ps, D) IN
   IF fin.err THEN Failed({"nobank"})
   ELSE IF cfg.fmt = "prg" /\ Len(fin.banks) # 1 THEN Failed({"prgmulti"})
